@@ -35,7 +35,8 @@ Definition ex_parent : stage :=
      s_buffered := []; s_signal := None; s_has_exc := false; s_plan_pending := false; s_hydrated := [];
      s_ctx := []; s_outs := []; s_tasks := [mk_task false];
      s_syn := {| y_parent := None; y_owner := None; y_script := 0; y_ntasks := 0;
-                 y_before := [{| tp_script := 1000; tp_ntasks := 1; tp_chain := false |}];
-                 y_after := [{| tp_script := 1001; tp_ntasks := 1; tp_chain := false |}]; y_fail := [] |};
+                 y_before := [{| tp_script := 1000; tp_ntasks := 1; tp_chain := false; tp_blocking := false |}];
+                 y_after := [{| tp_script := 1001; tp_ntasks := 1; tp_chain := false; tp_blocking := false |}]; y_fail := [];
+                 y_blocking := false; y_milestone := None; y_expired := false |};
      s_onfail := false |}.
 Definition ex_syn : state := init_state [ex_parent; ex_stage [0] 1] None.
